@@ -28,7 +28,7 @@ EXTRACT = "extract/ExC16.v"
 OBLIGATION = "time"
 THEOREMS = [
     "C16_datetime_roundtrip", "C16_datetime_instant_kept", "C16_offset_roundtrip", "C16_offset_roundtrip_sweep",
-    "C16_neg_flag_rejected", "C16_minus_zero_iff", "C16_offset_verbatim", "C16_format_date_exact",
+    "C16_neg_flag_rejected", "C16_minus_zero_iff", "C16_offset_verbatim", "C16_recorded_bytes_win", "C16_format_date_exact",
     "C16_range_rejected", "C16_iso8601_minus_zero", "C16_table_side_conditions", "C16_satisfiable",
 ]
 RULE = ("seconds {range ends, +-1 around them, -1, 0, 1, random} x microseconds {0,1,10,100000,999999,500000,random,-1,10^6}; "
@@ -42,7 +42,11 @@ RULE = ("seconds {range ends, +-1 around them, -1, 0, 1, random} x microseconds 
         "utcoffset() of that very datetime by integer arithmetic; about 12-30 % of all non-grid cases run with a non-UTC "
         "machine zone (POSIX TZ string + time.tzset(), recorded in the case, restored afterwards); the whole 16-bit x negative_utc grid of "
         "from_numeric_offset (131072 points, in ranges of 1024 offsets per case); dict forms (offset_bytes, legacy "
-        "offset/negative_utc, int, bool, missing keys, wrong types); ISO-8601 strings incl. -00:00; raw offset bytes in "
+        "offset/negative_utc, int, bool, missing keys, wrong types) and, systematically, dicts with any subset of the keys: "
+        "bytes only / legacy number only / BOTH, where the bytes are the canonical +HHMM of the number, another spelling "
+        "(+200, +02, +1, +0160, empty, 6 bytes, junk), or the bytes of a DIFFERENT number; negative_utc absent / None / "
+        "False / True (also contradicting the bytes); offset None; timestamp as {seconds, microseconds} / int / datetime / "
+        "ISO string / other; unknown extra keys; the argument dict must not be modified; ISO-8601 strings incl. -00:00; raw offset bytes in "
         "[+-][0-9]+ incl. the 4300-digit int() limit.  non-trivial = non-zero microseconds, or an offset whose minute "
         "part is not 0, or seconds < 0, or an error branch; distinct = distinct canonical case")
 TRUSTED = [
@@ -89,7 +93,7 @@ DT_MAX_US = (_td.days * 86400 + _td.seconds) * M + _td.microseconds
 NOBODY = Person(fullname=b"", name=None, email=None)
 
 ERRMAP = {"TimestampOverflow": "ValueError", "AttributeType": "ValueError", "Value": "ValueError",
-          "Assertion": "AssertionError", "Key": "KeyError", "Overflow": "Other(OverflowError)",
+          "Assertion": "AssertionError", "Key": "KeyError", "Overflow": "Other(OverflowError)", "Type": "TypeError",
           "Unmodelled": "Unmodelled"}
 
 
@@ -102,7 +106,9 @@ def pv(tok):
         return True
     if tok == "bF":
         return False
-    return {"o:none": None, "o:float": 1.5, "o:str": "12", "o:bytes": b"12"}[tok]
+    return {"o:none": None, "o:float": 1.5, "o:str": "12", "o:bytes": b"12",
+            "o:datetime": D.datetime(2020, 1, 1, 12, 0, 0, 5, tzinfo=D.timezone.utc),
+            "o:iso": "2020-01-01T12:00:00.000005+00:00", "o:list": [0, 0]}[tok]
 
 
 def pv_tok(tok):
@@ -472,6 +478,96 @@ def rnd_tsrepr(rng):
     return "missing"
 
 
+# ------------------------------------------------ dict forms: recorded bytes, legacy numeric form, or BOTH
+def canon_bytes(off, neg=False):
+    """the +HHMM / -HHMM spelling the numeric form gets (harness-side, independent of the code)"""
+    h, m = divmod(abs(off), 60)
+    return (("-" if off < 0 or neg else "+") + "%02d%02d" % (h, m)).encode()
+
+
+NONCANON = [b"+200", b"+0160", b"+1", b"", b"+00130", b"-54608", b"+02", b"-2", b"+2000000000", b"UTC", b"+01:30",
+            b"\xff\xfe", b"+0130\n", b" +0130"]
+DICT_TS = ["dict:i%d|i%d", "dict:i%d|absent", "int:i%d", "dict:absent|i%d"]
+DICT_TS_BAD = ["missing", "other:datetime", "other:iso", "other:str", "other:none", "other:float", "other:list",
+               "dict:bT|i0", "dict:i0|bF", "int:bT", "dict:i%d|i0" % (MAX_S + 1), "dict:i0|i1000000", "dict:o:none|i0"]
+DICT_OFFS = [0, 120, -120, 330, -1, 1439, -720, 32767, -32768, 40000]
+
+
+def mk_ts_tok(rng, form):
+    s, u = rnd_sec(rng), rnd_us(rng, True)
+    s = min(max(s, MIN_S), MAX_S)
+    if form == "dict:i%d|i%d":
+        return form % (s, u)
+    if form == "dict:absent|i%d":
+        return form % u
+    return form % s
+
+
+def bytes_choices(rng, off):
+    """offset_bytes candidates for a dict whose legacy number is `off` (an int, or None when there is none)"""
+    o = off if isinstance(off, int) else rng.choice(DICT_OFFS)
+    other = rng.choice([x for x in DICT_OFFS if x != o])
+    return [canon_bytes(o), canon_bytes(o, True) if o == 0 else canon_bytes(-o) if o else b"-0000",   # canonical / sign flipped
+            canon_bytes(other), canon_bytes(o + 1),                                                 # a DIFFERENT number
+            b"-0000", b"+0000"] + NONCANON
+
+
+def gen_dicts(rng, tier):
+    quick = tier == "quick"
+    cases = []
+
+    def add(t, ob, off, neg, extra=False):
+        c = {"k": "dict", "t": t, "ob": ob, "off": off, "neg": neg}
+        if extra:
+            c["extra"] = True
+        cases.append(c)
+    offs = DICT_OFFS + ["absent", "none"]
+    negs = ["absent", "none", False, True]
+    # systematic: every (legacy number or none) x (bytes absent / non-bytes / canonical / non-canonical / other number)
+    # x negative_utc (absent, None, False, True - so also contradicting the bytes), on acceptable timestamps
+    for off in offs:
+        obs = ["absent", "nonbytes"] + [b.hex() for b in bytes_choices(rng, off)]
+        for ob in obs:
+            for neg in negs:
+                reps = 1 if quick else 4
+                for _ in range(reps):
+                    add(mk_ts_tok(rng, rng.choice(DICT_TS)), ob, off, neg, rng.random() < 0.2)
+    # unacceptable / unusual "timestamp" members with every key combination
+    for t in DICT_TS_BAD:
+        for off in (120, "absent", "none"):
+            for ob in ("absent", "nonbytes", b"+0200".hex(), b"+200".hex()):
+                add(t, ob, off, rng.choice(negs), rng.random() < 0.2)
+    # random
+    for _ in range(1500 if quick else 60000):
+        off = rng.choice(offs) if rng.random() < 0.5 else rnd_off16(rng)
+        r = rng.random()
+        if r < 0.15:
+            ob = "absent"
+        elif r < 0.2:
+            ob = "nonbytes"
+        elif r < 0.6:
+            ob = rng.choice(bytes_choices(rng, off)).hex()
+        else:
+            ob = rnd_offset_bytes(rng).hex()
+        t = mk_ts_tok(rng, rng.choice(DICT_TS)) if rng.random() < 0.85 else (rng.choice(DICT_TS_BAD) if rng.random() < 0.5 else rnd_tsrepr(rng))
+        add(t, ob, off, rng.choice(negs), rng.random() < 0.2)
+    return cases
+
+
+def ts_expect(t):
+    """(seconds, microseconds) a "timestamp" member denotes when acceptable, else None"""
+    if t == "missing" or t.startswith("other"):
+        return None
+    v = tsrepr_value(t)
+    if isinstance(v, dict):
+        s, u = v.get("seconds", 0), v.get("microseconds", 0)
+    else:
+        s, u = v, 0
+    if type(s) is int and type(u) is int and MIN_S <= s <= MAX_S and MIN_US <= u <= MAX_US:
+        return (s, u)
+    return None
+
+
 def gen(rng, tier):
     quick = tier == "quick"
     cases = []
@@ -507,7 +603,7 @@ def gen(rng, tier):
         for _ in range(3000 if quick else 120000):
             cases.append(gen_dt_zone(rng))
     if not quick:
-        for _ in range(600000):
+        for _ in range(450000):
             cases.append(gen_dt_fixed(rng, 60 * rng.randrange(-1439, 1440)))
     # 4b. named zones AT their transitions: repeated hours with fold 0 and 1, gaps, edges (zoneinfo, dateutil, pytz)
     cases += gen_transitions(rng, tier)
@@ -530,6 +626,8 @@ def gen(rng, tier):
             cases.append({"k": "int", "v": ("i%d" % rnd_sec(rng)) if rng.random() < 0.9 else rng.choice(["bT", "bF"])})
         else:
             cases.append({"k": "other", "v": rng.choice(["o:none", "o:float", "o:str"])})
+    # 5b. dict forms, systematically: bytes only, legacy number only, BOTH (agreeing, differently spelled, disagreeing)
+    cases += gen_dicts(rng, tier)
     # 6. ISO-8601 strings
     for s in ["2020-01-01T00:00:00-00:00", "2020-01-01T00:00:00+00:00", "1969-12-31T23:59:59.999999-00:00",
               "1969-12-31T23:59:59.5+05:30", "0001-01-02T00:00:00Z", "9999-12-31T22:59:59Z", "9999-12-31T23:59:59Z",
@@ -568,7 +666,7 @@ def nontrivial(c):
         return "where" in c or c["wall_us"] % M != 0 or c.get("off_s", 1) % 3600 != 0 or c["wall_us"] < 0
     if k == "iso":
         return c["exp_us"] != 0 or c["exp_off"] % 60 != 0 or c["minus0"] or c["exp_epoch_s"] < 0
-    if k in ("dnew", "dold"):
+    if k in ("dnew", "dold", "dict"):
         return c["t"] != "dict:i0|i0"
     return True
 
@@ -597,6 +695,15 @@ def classify(c):
         off, neg = c["off"], bool(c.get("neg"))
         ks.append("off:" + ("neg&pos->assert" if neg and off > 0 else "out-of-16bit" if not -32768 <= off < 32768
                             else "-0000" if neg and off == 0 else "zero" if off == 0 else "negative" if off < 0 else "positive"))
+    if k == "dict":
+        has_b, has_n = c["ob"] != "absent", c["off"] != "absent"
+        ks.append("dict:" + ("both" if has_b and has_n else "bytes-only" if has_b else "number-only" if has_n else "neither"))
+        if has_b and isinstance(c["off"], int) and c["ob"] != "nonbytes":
+            b = core.unhx(c["ob"] or ".")
+            ks.append("dict:both:" + ("bytes canonical for the number" if b == canon_bytes(c["off"], c["neg"] is True)
+                                      else "bytes spell another number / not canonical"))
+        if c.get("extra"):
+            ks.append("dict:extra-keys")
     if k == "iso":
         ks.append("iso:-00:00" if c["minus0"] else "iso:other")
     if k == "pob":
@@ -676,6 +783,25 @@ def _impl(c):
             if c["neg"] is not None:
                 d["negative_utc"] = c["neg"]
             return show_impl(TSTZ.from_dict(d))
+        if k == "dict":
+            d = {}
+            if c["t"] != "missing":
+                d["timestamp"] = tsrepr_value(c["t"])
+            if c["ob"] != "absent":
+                d["offset_bytes"] = "+0000" if c["ob"] == "nonbytes" else core.unhx(c["ob"] or ".")
+            if c["off"] != "absent":
+                d["offset"] = None if c["off"] == "none" else c["off"]
+            if c["neg"] != "absent":
+                d["negative_utc"] = None if c["neg"] == "none" else c["neg"]
+            if c.get("extra"):
+                d["offset_str"] = "+0100"
+                d["tz"] = "Europe/Paris"
+                d[""] = None
+            keep = dict(d)
+            res = show_impl(TSTZ.from_dict(d))
+            if d != keep:
+                return {"error": "from_dict changed its argument"}
+            return res
         if k == "dt":
             dt = dt_of_case(c)
             r1 = show_impl(TSTZ.from_datetime(dt))
@@ -712,6 +838,9 @@ def requests(c):
     if k == "dold":
         return ["dold %s %s %s" % (tsrepr_tok(c["t"]), "absent" if c["off"] is None else c["off"],
                                    "absent" if c["neg"] is None else ("T" if c["neg"] else "F"))]
+    if k == "dict":
+        return ["dict %s %s %s %s" % (tsrepr_tok(c["t"]), c["ob"] if c["ob"] else ".",
+                                      c["off"], "absent" if c["neg"] in ("absent", "none") else ("T" if c["neg"] else "F"))]
     if k == "dt":
         a = abstr(dt_of_case(c))          # the input datetime as the model sees it (zoneinfo gives the offset)
         if a is None:
@@ -880,6 +1009,37 @@ def oracle(c, ires, mres):
         if ok and c["ob"] != "nonbytes" and core.unhx(ires["ob"]) != core.unhx(c["ob"] or "."):
             return "offset_bytes %r recorded as %r" % (core.unhx(c["ob"] or "."), core.unhx(ires["ob"]))
         return None
+    if k == "dict":
+        if not ok and ires["error"] == "from_dict changed its argument":
+            return ires["error"]
+        exp = ts_expect(c["t"])
+        if exp is None:
+            return None if not ok else "unacceptable timestamp member %r accepted" % c["t"]
+        if c["ob"] not in ("absent", "nonbytes"):
+            # recorded bytes: kept verbatim, whatever else the dict carries
+            want = core.unhx(c["ob"] or ".")
+            if not ok:
+                return "dict with recorded offset bytes %r (legacy offset %r, negative_utc %r) rejected with %s" % (
+                    want, c["off"], c["neg"], ires["error"])
+            if core.unhx(ires["ob"]) != want:
+                return "recorded offset bytes %r (legacy offset %r, negative_utc %r) came out as %r" % (
+                    want, c["off"], c["neg"], core.unhx(ires["ob"]))
+            if (ires["s"], ires["us"]) != exp:
+                return "timestamp %r read as (%r, %r)" % (c["t"], ires["s"], ires["us"])
+            return None
+        if c["ob"] == "absent" and isinstance(c["off"], int):
+            # numeric form only: through the +HHMM / -HHMM rule
+            neg = c["neg"] is True
+            why = oracle_offset(c["off"], neg, ok, core.unhx(ires["ob"]) if ok else None, ires.get("om"))
+            if why:
+                return why
+            if ok and -32768 <= c["off"] <= 32767 and not (neg and c["off"] > 0):
+                if core.unhx(ires["ob"]) != canon_bytes(c["off"], neg):
+                    return "offset %d negative_utc=%s recorded as %r, not %r" % (c["off"], neg, core.unhx(ires["ob"]),
+                                                                                canon_bytes(c["off"], neg))
+                if (ires["s"], ires["us"]) != exp:
+                    return "timestamp %r read as (%r, %r)" % (c["t"], ires["s"], ires["us"])
+        return None
     if k == "int":
         v = pv(c["v"])
         if type(v) is int and MIN_S <= v <= MAX_S:
@@ -970,6 +1130,13 @@ def shrink(c):
         yield {"k": "grid", "lo": c["lo"] + h, "n": c["n"] - h}
     if c.get("tzenv"):
         yield {k: v for k, v in c.items() if k != "tzenv"}
+    if c["k"] == "dict":
+        if c.get("extra"):
+            yield {k: v for k, v in c.items() if k != "extra"}
+        if c["neg"] != "absent":
+            yield dict(c, neg="absent")
+        if c["t"] != "int:i0":
+            yield dict(c, t="int:i0")
     if c["k"] == "dt":
         if c.get("lib", "zoneinfo") != "zoneinfo":
             yield dict(c, lib="zoneinfo")
@@ -1046,10 +1213,15 @@ def coq_cases(cases):
         if k == "grid":
             return "grid_case %s %d%%positive" % (z(w[1]), int(w[2]))
         if k == "dnew":
-            return "show (from_dict (TRDictNew %s %s))" % (tsr(w[1]), "None" if w[2] == "nonbytes" else "(Some %s)" % nl(w[2]))
+            return "show (from_dict (TRDict %s (Some %s) None None))" % (tsr(w[1]), "None" if w[2] == "nonbytes" else "(Some %s)" % nl(w[2]))
         if k == "dold":
-            return "show (from_dict (TRDictOld %s %s %s))" % (tsr(w[1]), "None" if w[2] == "absent" else "(Some %s)" % z(w[2]),
+            return "show (from_dict (TRDict %s None %s %s))" % (tsr(w[1]), "None" if w[2] == "absent" else "(Some (Some %s))" % z(w[2]),
                                                               "None" if w[3] == "absent" else "(Some %s)" % flag(w[3]))
+        if k == "dict":
+            return "show (from_dict (TRDict %s %s %s %s))" % (
+                tsr(w[1]), "None" if w[2] == "absent" else "(Some None)" if w[2] == "nonbytes" else "(Some (Some %s))" % nl(w[2]),
+                "None" if w[3] == "absent" else "(Some None)" if w[3] == "none" else "(Some (Some %s))" % z(w[3]),
+                "None" if w[4] == "absent" else "(Some %s)" % flag(w[4]))
         if k == "dt":
             return "show (from_dict (TRDatetime {| epoch_us := %s; off_s := %s |}))" % (z(w[1]), z(w[2]))
         if k == "naive":
@@ -1067,7 +1239,7 @@ def coq_cases(cases):
            "Import ListNotations.\n" + core.COQ_CHECKSUM + """
 Definition zz (x : Z) : list N := [if (x <? 0)%Z then 1%N else 0%N; Z.abs_N x].
 Definition en (e : err) : N := match e with ETimestampOverflow => 1 | EAttributeType => 2 | EValue => 3 | EAssertion => 4
-  | EKey => 5 | EOverflow => 6 | EUnmodelled => 7 end%N.
+  | EKey => 5 | EOverflow => 6 | EUnmodelled => 7 | EType => 8 end%N.
 Definition rz (r : result Z) : list N := match r with Ok x => 20%N :: zz x | Err e => [en e] end.
 Definition rtd (r : result adt) : list N := match r with Ok d => 21%N :: zz (epoch_us d) ++ zz (off_s d) | Err e => [en e] end.
 Definition show (r : result tstz) : list N := match r with
@@ -1086,7 +1258,7 @@ Definition grid_case (lo : Z) (n : positive) : list N :=
   concat (map (fun off => short (from_numeric_offset t off false) ++ [304%N] ++ short (from_numeric_offset t off true) ++ [304%N])
               (z_range lo n)).
 """ + "Definition cases : list (list N) := [" + ";\n ".join(term(rq) for rq in reqs) + "].\nEval vm_compute in map cksum cases.\n")
-    ERRN = {"TimestampOverflow": 1, "AttributeType": 2, "Value": 3, "Assertion": 4, "Key": 5, "Overflow": 6, "Unmodelled": 7}
+    ERRN = {"TimestampOverflow": 1, "AttributeType": 2, "Value": 3, "Assertion": 4, "Key": 5, "Overflow": 6, "Unmodelled": 7, "Type": 8}
     def zz(n):
         n = int(n)
         return [1 if n < 0 else 0, abs(n)]
